@@ -9,7 +9,7 @@ PROP = "C05"
 LEVEL = "exploration"
 SHARDS = {"quick": 8, "thorough": 16}
 TIMEOUT = {"quick": 900, "thorough": 7200}
-REQUIRED = {"hash_len": 4000, "address": 2000, "script_template": 200, "probe.hash160": 2000, "pubkey_address": 300}
+REQUIRED = {"hash_len": 4000, "address": 2000, "script_template": 200, "pubkey_address": 300}
 ANCHORS = ['helper:hash160', 'ripemd:ripemd160', 'keys:PublicKey.address', 'base_wallet:BaseWallet.p2pkh_address', 'base_wallet:BaseWallet.p2wpkh_address', 'base_wallet:BaseWallet.p2sh_p2wpkh_address', 'base_wallet:BaseWallet.p2wsh_address', 'base_wallet:BaseWallet.p2sh_p2wsh_address', 'script:Script.raw_serialize', 'helper:h160_to_p2sh_address', 'helper:h256_to_p2wsh_address']
 RULE = ("hash clause: EVERY byte length 0..1024 x {zeros, ff, counter, random} (4100 messages, every RIPEMD-160 padding "
         "boundary), judged against OpenSSL RIPEMD160(SHA256) and an own RIPEMD-160; address clause: keys from scalar classes "
@@ -90,11 +90,19 @@ def judge_address(ctx, case):
     k, tn, kind = case["k"], case["testnet"], case["kind"]
     pt = secp.gmul(k)
     sec = secp.ser(pt, True)
-    if case.get("public"):
-        node = PubKeyNode(key=sec, chain_code=b"\x11" * 32, testnet=tn)
+    if case.get("route") == "from_extended_key":
+        # the wallet (and its master node) come from an extended-key string: network is whatever the prefix says
+        from ..ref import bip32 as rb32
+        xk = rb32.XKey(k, None, b"\x11" * 32)
+        ver = rb32.SLIP132[("pub" if case.get("public") else "prv", "test" if tn else "main", case.get("purpose", 44))]
+        w = BaseWallet.from_extended_key(extended_key=xk.xpub(ver) if case.get("public") else xk.xprv(ver))
+        node = w.master
     else:
-        node = PrvKeyNode(key=k.to_bytes(32, "big"), chain_code=b"\x11" * 32, testnet=tn)
-    w = BaseWallet(master=node, testnet=tn)
+        if case.get("public"):
+            node = PubKeyNode(key=sec, chain_code=b"\x11" * 32, testnet=tn)
+        else:
+            node = PrvKeyNode(key=k.to_bytes(32, "big"), chain_code=b"\x11" * 32, testnet=tn)
+        w = BaseWallet(master=node, testnet=tn)
     try:
         got = getattr(w, kind + "_address")(node)
     except Exception as e:  # noqa
@@ -107,7 +115,8 @@ def judge_address(ctx, case):
     if got != _expected(sec, tn, kind):
         bad.append(("string", _expected(sec, tn, kind), got))
     return ctx.judge("address", not bad, case, want, bad,
-                     cls="%s|%s|%s|%s" % (kind, "test" if tn else "main", case.get("ktag", "k"), "pub" if case.get("public") else "prv"),
+                     cls="%s|%s|%s|%s|%s" % (kind, "test" if tn else "main", case.get("ktag", "k"), "pub" if case.get("public") else "prv",
+                                             "direct" if case.get("route") != "from_extended_key" else "xkey%d" % case.get("purpose", 44)),
                      mech="C05.address.%s.%s" % (kind, bad[0][0] if bad else ""))
 
 
@@ -196,9 +205,9 @@ def install_probes(ctx):
         ctx.judge("probe.ripemd160", res == exp, {"msg": bytes(m)} if len(m) <= 80 else {"msg_len": len(m)}, exp, res,
                   cls="probe", mech="C05.probe.ripemd160")
 
-    h = probes.observe_function(inst, helper, "hash160", on_h160)
+    h = probes.try_install(ctx, "observe hash160", probes.observe_function, inst, helper, "hash160", on_h160) or []
     ctx.extra["hash160_holders"] = ["%s.%s" % x for x in h]
-    probes.observe_function(inst, ripemd, "ripemd160", on_rmd)
+    probes.try_install(ctx, "observe ripemd160", probes.observe_function, inst, ripemd, "ripemd160", on_rmd)
     return inst
 
 
@@ -241,8 +250,10 @@ def run(ctx):
             tag, k = gen_key(rnd, lzx)
             tn = rnd.random() < 0.5
             pub = rnd.random() < 0.5
+            route = rnd.choice(["direct", "direct", "from_extended_key"])
+            purpose = rnd.choice([44, 49, 84])
             for kind in KINDS:
-                judge_address(ctx, {"k": k, "testnet": tn, "kind": kind, "ktag": tag, "public": pub})
+                judge_address(ctx, {"k": k, "testnet": tn, "kind": kind, "ktag": tag, "public": pub, "route": route, "purpose": purpose})
         for _ in range(ctx.scale(400, 40000)):
             tag, k = gen_key(rnd, lzx)
             z = rnd.choice([0, 0, 0, 1, 2, 5])
